@@ -16,7 +16,7 @@ def all_preexisting_lists_same(H0, H1, except_parent=None):
 
 @contract('mosromgr.mostypes.ReadyToAir.merge')
 class ReadyToAirMerge(MergeContract):
-    props = ('C03', 'C05', 'C06', 'C07', 'C12', 'C13', 'C14')
+    props = ('C03', 'C05', 'C06', 'C07', 'C12', 'C13', 'C14', 'C15')
     cls_name = 'ReadyToAir'
     base_tag_name = 'roReadyToAir'
     frame = 'none'
@@ -30,7 +30,7 @@ class ReadyToAirMerge(MergeContract):
 
 @contract('mosromgr.mostypes.RunningOrderEnd.merge')
 class RunningOrderEndMerge(MergeContract):
-    props = ('C03', 'C04', 'C05', 'C06', 'C07', 'C12', 'C13', 'C14')
+    props = ('C03', 'C04', 'C05', 'C06', 'C07', 'C12', 'C13', 'C14', 'C15')
     cls_name = 'RunningOrderEnd'
     base_tag_name = 'roDelete'
     frame = 'root'
@@ -80,7 +80,7 @@ def ro_content_shape(W, H, base, name):
 
 @contract('mosromgr.mostypes.RunningOrderReplace.merge')
 class RunningOrderReplaceMerge(MergeContract):
-    props = ('C03', 'C04', 'C05', 'C06', 'C07', 'C12', 'C13', 'C14')
+    props = ('C03', 'C04', 'C05', 'C06', 'C07', 'C12', 'C13', 'C14', 'C15')
     cls_name = 'RunningOrderReplace'
     base_tag_name = 'roReplace'
     frame = 'root'
@@ -230,7 +230,7 @@ class MetaLoop(LoopSpec):
 
 @contract('mosromgr.mostypes.MetaDataReplace.merge')
 class MetaDataReplaceMerge(MergeContract):
-    props = ('C03', 'C04', 'C05', 'C06', 'C07', 'C12', 'C13', 'C14')
+    props = ('C03', 'C04', 'C05', 'C06', 'C07', 'C12', 'C13', 'C14', 'C15')
     cls_name = 'MetaDataReplace'
     base_tag_name = 'roMetadataReplace'
     frame = 'base'
